@@ -119,6 +119,7 @@ fn collections(ctx: &mut Ctx, rng: &mut Rng, case: u64) {
 }
 
 pub fn run(ctx: &mut Ctx) {
+    bc_envelope::register_tags();
     let total = ctx.n(20_000, 1_500_000);
     for case in ctx.cases(total) {
         ctx.begin_case(case);
@@ -366,6 +367,62 @@ pub fn run(ctx: &mut Ctx) {
                 && env_bytes(&Envelope::r#false()) == env_bytes(&Envelope::new(false));
             if !ok {
                 ctx.violation("convenience-constructor-differs", "a convenience constructor / conditional adder disagrees with the plain form", replay("convenience"));
+            }
+        }
+        // operations are functions of their receiver: the same receiver gives the same result whatever
+        // was computed before it - in particular right after the same operation on a digest-EQUAL but
+        // structurally different form (full / partly obscured / elided / compressed)
+        {
+            let k2 = fresh_key(&mut rng);
+            let mut forms: Vec<Envelope> = vec![e.clone(), gen::obscure_random(&e, &mut rng, 2, &k2), e.elide()];
+            if let Ok(c) = e.compress() {
+                forms.push(c);
+            }
+            if let Ok(cs) = e.compress_subject() {
+                forms.push(cs);
+            }
+            let probe_pred = asr[0].subject().as_predicate().unwrap_or_else(|| Envelope::new("p"));
+            let tgt = gen::digest_set(&[gen::root_digest(&asr[0])]);
+            let observe = |x: &Envelope| -> Vec<String> {
+                vec![
+                    hex::encode(env_bytes(x)),
+                    hex::encode(gen::root_digest(x)),
+                    hex::encode(x.structural_digest().data()),
+                    x.elements_count().to_string(),
+                    x.format_flat(),
+                    x.tree_format(false),
+                    x.compress().map(|c| hex::encode(env_bytes(&c))).unwrap_or_else(|e| format!("err {}", e)),
+                    x.compress_subject().map(|c| hex::encode(env_bytes(&c))).unwrap_or_else(|e| format!("err {}", e)),
+                    x.uncompress().map(|c| hex::encode(env_bytes(&c))).unwrap_or_else(|e| format!("err {}", e)),
+                    hex::encode(env_bytes(&x.elide_removing_set(&tgt))),
+                    hex::encode(env_bytes(&x.elide_revealing_set(&tgt))),
+                    hex::encode(env_bytes(&x.wrap_envelope())),
+                    x.assertions_with_predicate(probe_pred.clone()).len().to_string(),
+                    x.proof_contains_set(&tgt).map(|p| hex::encode(env_bytes(&p))).unwrap_or_default(),
+                    x.digests(2).len().to_string(),
+                    format!("{:?}", x.types().len()),
+                    x.ur_string(),
+                ]
+            };
+            match trap::guard(|| {
+                let first: Vec<Vec<String>> = forms.iter().map(|f| observe(f)).collect();
+                let second: Vec<Vec<String>> = forms.iter().rev().map(|f| observe(f)).collect::<Vec<_>>().into_iter().rev().collect();
+                (first, second)
+            }) {
+                Ok((first, second)) => {
+                    ctx.eval();
+                    ctx.count("purity_families");
+                    for (i, (a, b)) in first.iter().zip(second.iter()).enumerate() {
+                        if let Some(j) = a.iter().zip(b.iter()).position(|(x, y)| x != y) {
+                            let names = ["bytes", "digest", "structural_digest", "elements_count", "format_flat", "tree_format", "compress", "compress_subject", "uncompress", "elide_removing_set", "elide_revealing_set", "wrap_envelope", "assertions_with_predicate", "proof_contains_set", "digests", "types", "ur_string"];
+                            ctx.violation(&format!("result-depends-on-history/{}", names[j]), &format!("{} of the same envelope (form #{}) gave two different results depending on which digest-equal form was processed before it", names[j], i), J::obj(vec![("forms", J::Arr(forms.iter().map(jhex).collect()))]));
+                            break;
+                        }
+                    }
+                }
+                // formatting a hostile date leaf panics inside dcbor (known finding D14, owned by C16)
+                Err(p) if p.signature().contains("dcbor-0.17.1/src/date.rs") => ctx.count("purity_skipped_dcbor_date_panic"),
+                Err(p) => ctx.violation(&format!("panic/purity/{}", p.signature()), &format!("{:?}", p), replay("purity")),
             }
         }
         // equal values -> equal bytes: unordered collections
